@@ -318,5 +318,5 @@ pub fn case(tape: &[u8], ctx: &Ctx) -> Outcome {
 }
 
 pub fn property() -> Property {
-    Property { id: "C19", rule: RULE, phases: vec![Phase::Prop { name: "inflateBack over byte strings x callback schedules", f: case, quick: 120_000, thorough: 4_000_000, max_tape: 260 }] }
+    Property { id: "C19", rule: RULE, phases: vec![Phase::Prop { name: "inflateBack over byte strings x callback schedules", f: case, quick: 900_000, thorough: 8_000_000, max_tape: 260 }] }
 }
